@@ -93,6 +93,22 @@ class LFK:
     def limbs(self, path, ptr):
         return self.ex.load(path, ptr)
 
+    def each(self, args):
+        """explore; returning paths are yielded one by one (goal names get a path tag when there are several);
+        a path that panics or hits an engine limitation is recorded as an open obligation (settled by the replay)"""
+        paths = self.ex.call(self.fname, args, self.path)
+        good = [p for p in paths if p.outcome[0] == "ret"]
+        bad = [p for p in paths if p.outcome[0] != "ret"]
+        base = self.label
+        if bad or not good:
+            ob = Ob("%s: returns normally on every path" % base, "sat", 0, [self.fname], "Int-LF", detail=str([p.outcome for p in bad][:2]))
+            self.chk.add(ob)
+            self.sat_obs.append(ob)
+        for i, p in enumerate(good):
+            self.label = base if len(good) == 1 else "%s [path %d/%d]" % (base, i + 1, len(good))
+            yield p
+        self.label = base
+
     def model_inputs(self, model):
         out = {}
         for n, limbs in self.inputs.items():
@@ -163,10 +179,10 @@ def k_carry(base, chk, fname=F + "carryPropagateGeneric"):
     fname = base.prog.find("Element).carryPropagateGeneric") if "Generic" in fname else base.prog.find("Element).carryPropagate")
     k = LFK(base, chk, fname)
     v, vl = k.elem("v", (1 << 64) - 1)
-    (p,) = k.run([v], 1)
-    out = k.limbs(p, v)
-    k.goal(p, "congr", "value preserved mod p (any 64-bit limbs)", fval(out), fval(vl), P)
-    out_bounds(k, p, out)
+    for p in k.each([v]):
+        out = k.limbs(p, v)
+        k.goal(p, "congr", "value preserved mod p (any 64-bit limbs)", fval(out), fval(vl), P)
+        out_bounds(k, p, out)
     k.replay = field_replayer("carryPropagateGeneric" if "Generic" in fname else "carryPropagate", ["v"], lambda v, raw: v["v"], bound=(1 << 64) - 1, inplace=True,
                               check_bounds=2**51 + 19 * 2**13)
     k.settle()
@@ -178,14 +194,14 @@ def k_add(base, chk):
     a, al = k.elem("a")
     b, bl = k.elem("b")
     v, _ = k.out_elem()
-    (p,) = k.run([v, a, b], 1)
-    out = k.limbs(p, v)
-    k.goal(p, "congr", "value = a+b mod p", fval(out), fval(al) + fval(bl), P)
-    out_bounds(k, p, out)
-    # exactness: no 64-bit wrap in the limb additions (value congruence would fail otherwise); also
-    # state it directly: sum of limbs below 2^64
-    for i in range(5):
-        k.goal(p, "le", "a.l%d+b.l%d < 2^64" % (i, i), LF.of(al[i]) + bl[i], 2**64 - 1)
+    for p in k.each([v, a, b]):
+        out = k.limbs(p, v)
+        k.goal(p, "congr", "value = a+b mod p", fval(out), fval(al) + fval(bl), P)
+        out_bounds(k, p, out)
+        # exactness: no 64-bit wrap in the limb additions (value congruence would fail otherwise); also
+        # state it directly: sum of limbs below 2^64
+        for i in range(5):
+            k.goal(p, "le", "a.l%d+b.l%d < 2^64" % (i, i), LF.of(al[i]) + bl[i], 2**64 - 1)
     k.replay = field_replayer("Add", ["a", "b"], lambda v, raw: v["a"] + v["b"])
     k.settle()
 
@@ -196,19 +212,16 @@ def k_sub(base, chk, negate=False):
     a, al = k.elem("a")
     v, _ = k.out_elem()
     if negate:
-        (p,) = k.run([v, a], 1)
+        args = [v, a]
         spec = -fval(al)
     else:
         b, bl = k.elem("b")
-        (p,) = k.run([v, a, b], 1)
+        args = [v, a, b]
         spec = fval(al) - fval(bl)
-    out = k.limbs(p, v)
-    k.goal(p, "congr", "value = %s mod p" % ("-a" if negate else "a-b"), fval(out), spec, P)
-    out_bounds(k, p, out)
-    if not negate:
-        two_p = [0xFFFFFFFFFFFDA] + [0xFFFFFFFFFFFFE] * 4
-        for i in range(5):
-            k.goal(p, "le", "no underflow: a.l%d + 2p.l%d - b.l%d >= 0" % (i, i, i), 0, LF.of(al[i]) + two_p[i] - bl[i])
+    for p in k.each(args):
+        out = k.limbs(p, v)
+        k.goal(p, "congr", "value = %s mod p" % ("-a" if negate else "a-b"), fval(out), spec, P)
+        out_bounds(k, p, out)
     k.replay = field_replayer("Negate", ["a"], lambda v, raw: -v["a"]) if negate else field_replayer("Subtract", ["a", "b"], lambda v, raw: v["a"] - v["b"])
     k.settle()
 
@@ -233,13 +246,15 @@ def k_mul(base, chk, which):
     path = k.path
     if fname in k.ex.summaries:
         k.ex.summaries[fname](k.ex, path, args)
-        p = path
+        plist = [path]
     else:
-        (p,) = k.run(args, 1)
-    out = k.limbs(p, v)
-    spec = k.dom.mul(p, fval(al), fval(bl))
-    k.goal(p, "congr", "value = a*b mod p", fval(out), spec, P)
-    out_bounds(k, p, out)
+        plist = list(k.each(args))
+    p = out = None
+    for p in plist:
+        out = k.limbs(p, v)
+        spec = k.dom.mul(p, fval(al), fval(bl))
+        k.goal(p, "congr", "value = a*b mod p", fval(out), spec, P)
+        out_bounds(k, p, out)
     if "Square" in which:
         k.replay = field_replayer(which, ["a"], lambda v, raw: v["a"] * v["a"])
     else:
@@ -278,13 +293,13 @@ def k_mult32(base, chk):
     x, xl = k.elem("x")
     y = k.dom.input("y", 0, 2**32 - 1)
     v, _ = k.out_elem()
-    (p,) = k.run([v, x, y], 1)
-    out = k.limbs(p, v)
-    spec = k.dom.mul(p, fval(xl), y)
-    k.goal(p, "congr", "value = x*y mod p", fval(out), spec, P)
-    for i, o in enumerate(out):
-        k.goal(p, "le", "out.l%d <= B (invariant closed under Mult32)" % i, o, B)
-        k.goal(p, "le", "out.l%d >= 0" % i, 0, o)
+    for p in k.each([v, x, y]):
+        out = k.limbs(p, v)
+        spec = k.dom.mul(p, fval(xl), y)
+        k.goal(p, "congr", "value = x*y mod p", fval(out), spec, P)
+        for i, o in enumerate(out):
+            k.goal(p, "le", "out.l%d <= B (invariant closed under Mult32)" % i, o, B)
+            k.goal(p, "le", "out.l%d >= 0" % i, 0, o)
     k.replay = mult32_replayer()
     k.settle()
 
@@ -295,13 +310,13 @@ def k_reduce(base, chk, bound=B):
     fname = base.prog.find("Element).reduce")
     k = LFK(base, chk, fname)
     v, vl = k.elem("v", bound)
-    (p,) = k.run([v], 1)
-    out = k.limbs(p, v)
-    k.goal(p, "congr", "value preserved mod p", fval(out), fval(vl), P)
-    for i, o in enumerate(out):
-        k.goal(p, "le", "out.l%d <= 2^51-1" % i, o, M51)
-        k.goal(p, "le", "out.l%d >= 0" % i, 0, o)
-    k.goal(p, "le", "value(out) <= p-1 (fully reduced)", fval(out), P - 1)
+    for p in k.each([v]):
+        out = k.limbs(p, v)
+        k.goal(p, "congr", "value preserved mod p", fval(out), fval(vl), P)
+        for i, o in enumerate(out):
+            k.goal(p, "le", "out.l%d <= 2^51-1" % i, o, M51)
+            k.goal(p, "le", "out.l%d >= 0" % i, 0, o)
+        k.goal(p, "le", "value(out) <= p-1 (fully reduced)", fval(out), P - 1)
     k.replay = reduce_replayer()
     k.settle()
 
